@@ -10,22 +10,22 @@ NOTE = ('Trusted: Lean 4.33 kernel with axioms propext/Classical.choice/Quot.sou
         'Each Rust function is related to its Lean twin only by the correspondence on the explored inputs.')
 
 P = {
- 'C01': ('proof', '3.4, 6 C01', 'refinement + correspondence',
-         'Theorems about the model: the reference search is leftmost by construction and equals the first result of the wrapped tree `(?s:.)*?(e)`; first-result evaluation (semK) equals the list semantics; negative witness theorems for F1/F8/F10. The compiler-correctness refinement (model VM = reference) is proved only for the stage stated in the evidence; beyond it the model VM is validated against the reference on the explored space. Tie: build kind, program listing and span, implementation vs model, on every explored case; oracle: implementation vs reference on all in-domain cases.'),
- 'C02': ('proof', '6 C02', 'refinement + correspondence',
-         'Spec lemmas about captures on every result of the reference semantics (set groups have start <= end, groups outside the expression untouched), group numbering = pre-order (renumber); engine part as C01. Tie and oracle compare every group of every match.'),
+ 'C01': ('proof', '3.4, 6 C01, 12.1', 'refinement proof (compiler correctness) + correspondence',
+         'Theorem C01_vm_correct_s2 (all texts, offsets, patterns in the stage): the VM run of the compiled wrapped tree equals the reference leftmost priority-ordered search - match/no match, span, every group - up to the three resource stops, for every pattern whose tree satisfies the decidable predicate s2ok (every construct the VM interprets itself: literals, any, assertions, \\K, \\G, back-references, group tests, concat, alt, groups, all quantifiers with NoEmptyLoop, atomic groups, look-aheads, look-behinds over a const-size non-alternation body, conditionals; NoCondLeak) and whose program contains no Delegate instruction. Chain: undo-log State -> whole copies (C20) -> auxiliary stack as a list (AuxStack) -> structured machine Big2 for every instruction (link2) -> reference semantics (sim2_visit) -> refSearch. Also: the reference search is leftmost; semK = list semantics; negative witness theorems for F1/F8/F10. Programs with Delegate (stage S3) are validated, not proved: the evidence states the share of explored patterns/cases inside the proved stage on every run. Tie: build kind, program listing and span, implementation vs model, every explored case; oracle: implementation vs reference on all in-domain cases.'),
+ 'C02': ('proof', '6 C02, 12.1', 'refinement proof (compiler correctness) + correspondence',
+         "Theorem C02_groups_s2: in the proved stage (see C01) every capture slot reported by the VM run of the compiled program equals the reference's (last iteration that entered the group, unset if never entered, kept through look-arounds, nothing from abandoned alternatives - all consequences of equality with the pure reference semantics). Spec lemmas: set groups have start <= end, groups outside an expression untouched (frame), numbering = pre-order (renumber). Tie and oracle compare every group of every match and the per-node group ranges of the analysis; commit/restore and numbering pattern families."),
  'C03': ('proof', '6 C03', 'spec congruence theorem + metamorphic differential',
          'Theorem: inserting an empty positive look-ahead before or after any sub-expression leaves the reference semantics unchanged (all contexts, unconditionally). Engine side: implementation on P vs on inject(P) on the explored space, both tied to the model.'),
  'C04': ('other', '6 C04', 'differential against the regex crate + model tie',
          'The regex crate is not modelled: the cross-crate agreement holds on the explored inputs only. Theorems: the model API layer over any search equals the statement-level algorithms (C08-C11). Two correspondences against the same model (fancy-regex <-> model, regex crate <-> model) plus the direct differential on every API call.'),
- 'C05': ('proof', '6 C05', 'invariant by induction over VM steps + exploration',
-         'Theorems: the model VM never reaches a panic site from a well-formed state on any program satisfying the slot-bound side condition (per-instruction lemmas); API-layer slices are in range given a well-formed search result. Exploration: every public entry point under catch_unwind on the unrestricted grammar with 1-4 byte characters.'),
- 'C06': ('proof', '6 C06', 'totality/bounds theorems on model scanners + exploration with resource meters',
-         'Theorems on the analyzer arithmetic (saturating, never above usize::MAX), on parse_decimal/parse_id scanners and on program size bounds of the compiler model. The recursive-descent parser is not modelled: parse behaviour is explored (no panic, error position, time and allocation budgets) on the malformed stream.'),
+ 'C05': ('proof', '6 C05, 12.1', 'invariant by induction over VM steps + UTF-8 layer theorems + exploration',
+         "Theorems: the model VM reaches no panic site from a well-formed state (per-instruction lemmas; all instructions via the link theorem wherever the structured machine is defined); in the proved engine stage a search never panics and reports the reference's offsets; UTF-8 layer (C05b): boundaries of encode are exactly the character offsets, next_utf8 / prev_codepoint_ix / GoBack move by whole characters, slices between character positions never panic, literals are prefix-free; End caps the start into [pos, end]; API-layer slices are in range given a well-formed search. Entry points explored under catch_unwind on the unrestricted grammar with 1-4 byte characters."),
+ 'C06': ('proof', '6 C06, 12.2', 'totality/no-panic theorems on the parser model + parser correspondence + exploration with resource meters',
+         'The recursive-descent parser is inside the model (Model/Parse.lean, byte-level, explicit panic sites). Theorems for every string: C06_parse_no_panic, C06_error_pos (reported position <= length), C06_depth (tree depth bounded by MAX_RECURSION), C06_parse_total (Ok or Err, the model never runs out of fuel), bounds for each leaf scanner; analyzer arithmetic saturates below usize::MAX; group count linear. Parser tie: ~2M (quick) / ~15M (thorough) patterns - malformed stream, all engine spaces, respellings, escape outputs, multi-byte fillers, numeric-boundary probes - tree / back-reference set / names or error kind + byte position, Rust vs Lean. Resource clause (time, allocation, native stack) is measured on probes, not proved.'),
  'C07': ('proof', '6 C07', 'lock-step simulation theorem + correspondence of run counters',
          'Theorems (any program, any text): a run with limit L is the limit error or the unlimited answer; every L >= the backtracks of the unlimited run gives the unlimited answer; the branch stack never exceeds MAX_STACK. Termination bound for compiled programs is validated (instruction counts implementation = model on every explored case), not proved.'),
  'C08': ('proof', '6 C08', 'state-machine theorems over an arbitrary search oracle + correspondence',
-         'Theorems over an arbitrary oracle: the iterator model equals the statement-level iteration; under pos <= start <= end the yielded sequence is strictly increasing and non-overlapping; nothing follows an error; fuel is never exhausted. Tie: iterator over a table of the implementation\'s own search answers and end to end.'),
+         "Theorems over an arbitrary oracle: C08_eq_spec - the iterator model (Matches::next, CaptureMatches::next) yields exactly the statement's iteration (also with captures, and up to the first error); under pos <= start <= end the sequence is strictly increasing and non-overlapping; nothing follows an error; termination within len+2 calls; the skipped-empty flag. Tie in two forms (over the implementation's own search answers; end to end)."),
  'C09': ('proof', '6 C09', 'definitional equalities + iterator theorem + exploration',
          'Theorems: captures_iter and find_iter yield the same spans for every captures oracle (after F2); find is the span of captures in the model. The Wrap path\'s separate regex-automata calls are outside the model and covered by exploration of all seven entry points.'),
  'C10': ('proof', '6 C10', 'state-machine theorems over an arbitrary match sequence + correspondence',
@@ -35,11 +35,11 @@ P = {
  'C12': ('proof', '6 C12', 'round-trip and decision theorems on the expander model + exhaustive correspondence',
          'Theorems: expansion(escape s) = s for both expanders, $$ -> $, verbatim copy without the substitution character, check soundness. Tie: all templates to length 4/5 over the 14-character alphabet.'),
  'C13': ('proof', '6 C13', 'structural-induction theorems on the reference semantics + correspondence of analysis facts',
-         'Theorems (spec only): every result of every sub-expression ends at least min_size characters later, exactly min_size when const_size (well-shaped expressions, sizes below usize::MAX). Tie: per-node facts implementation vs model.'),
+         "Theorems (all expressions, states, texts): C13_min_sound (no result shorter than min_size), C13_const_exact (exactly min_size when const_size; side conditions: single-character literals, no bare \\Z node, no usize saturation), C13_lookbehind_exact ('go back min_size, run the body' = 'some start ends exactly here'), C13_goback (fails rather than reading before the start), C13_accept_iff (look-behind rejected with the dedicated error iff a top-level alternative is not const-size), and in the engine stage (C01) the compiled look-behind computes the reference. Tie: per-node facts implementation vs model; oracle: enumerated match lengths vs facts."),
  'C14': ('proof', '6 C14', 'model theorems on flag seeding + metamorphic differential',
          'The recursive-descent parser is not modelled, so `builder option = (?i) prefix` is decided by the in-process differential; theorems cover the model side (case-insensitive matching is decided per node; options read only at the stated points).'),
- 'C15': ('proof', '6 C15', 'spec equations + witness theorems + correspondence',
-         'Theorems: the three conditional equations of the statement hold of the reference semantics by definition-unfolding (stated so they cannot drift); negative witnesses for F8. Engine: implementation vs reference under NoCondLeak on the explored space; parse_conditional is explored, not modelled.'),
+ 'C15': ('proof', '6 C15, 12.1', 'spec equations + compiler-correctness theorem + witness theorems + correspondence',
+         'Theorems: the three conditional equations of the statement hold of the reference semantics (condition tried once; never falls back to no; no from the original position); C15_vm_correct_cond: the VM run of a compiled pattern with conditionals computes exactly that wherever s2ok allows them (loops, alternations, groups, negative look-arounds, branches of other conditionals; not inside atomic groups / positive look-arounds / other conditions: finding F8, negative witness theorems), programs without Delegate. Parser reading of the forms: expected-tree oracle + parser tie. Engine: implementation vs reference on all in-domain cases.'),
  'C16': ('proof', '6 C16', 'counting theorems on renumber/groupCount + exploration',
          'Theorems: renumber assigns pre-order numbers n..n+groupCount, captures_len of the model = 1 + groups; Captures accessors explored on the implementation.'),
  'C17': ('proof', '6 C17', 'theorems on escape/push_quoted over the extracted special set + exhaustive correspondence',
